@@ -538,7 +538,13 @@ def norm(e):
     if k == "bin":
         return ("bin", e[1], norm(e[2]), norm(e[3]))
     if k == "index":
-        return ("index", norm(e[1]), norm(e[2]))
+        b, i = norm(e[1]), norm(e[2])
+        # constant index into an array literal / tuple-like aggregate: the element itself
+        if b[0] == "agg" and i[0] == "const" and isinstance(i[2], int) and not isinstance(i[2], bool):
+            for f, a in b[3]:
+                if str(f) == str(i[2]):
+                    return a
+        return ("index", b, i)
     if k == "subslice":
         return ("subslice", norm(e[1])) + e[2:]
     if k == "call":
